@@ -7,7 +7,7 @@ import traceback
 
 from . import build, facts, pp, report
 
-PROPS = ["C01", "C02", "C03", "C04", "C05", "C06", "C07", "C08", "C09", "C10", "C11", "C14", "C15", "C16", "C18",
+PROPS = ["C01", "C02", "C03", "C04", "C05", "C06", "C07", "C08", "C09", "C10", "C11", "C13", "C14", "C15", "C16", "C18",
          "C19", "C20"]
 
 
